@@ -57,20 +57,87 @@ Check C06_second_pass_links :
           (dlinks bs) (dlinks (rr o g)).
 Print Assumptions C06_second_pass_links.
 
-(* F-INLINEDIR, on the model: the title of an inline link comes from the note named by the destination text
-   alone, not from the note the link resolves to from the linking note's directory *)
-Theorem C06_inline_dir_refuted :
-  exists ctx key bs d g t,
-    In (d, g) (combine (dlinks bs) (glinks (written ctx key bs))) /\
-    o_kind d = KNote Regular /\ o_alt d = false /\
-    ctx (join_normalized (key_parent key) (o_dest g)) = Some t /\ o_text g <> [Str t].
-Proof. exact LinksFacts.C06_inline_dir_refuted. Qed.
-Check C06_inline_dir_refuted :
-  exists ctx key bs d g t,
-    In (d, g) (combine (dlinks bs) (glinks (written ctx key bs))) /\
-    o_kind d = KNote Regular /\ o_alt d = false /\
-    ctx (join_normalized (key_parent key) (o_dest g)) = Some t /\ o_text g <> [Str t].
-Print Assumptions C06_inline_dir_refuted.
+(* F-INLINEDIR (repaired: inline note links are kept by key and written relative to the note, like block
+   references).  The rule for an inline note link, spelled out: its destination is the path, relative to the note's
+   directory, of the key K the typed url names from that directory; it leads to K again with either extension;
+   outside an image description a regular link carries the title of K. *)
+Theorem C06_inline_rule :
+  forall (ctx : titles) (dir : string) (d g : occ) (lt : link_type),
+    link_rule ctx dir d g -> o_kind d = KNote lt ->
+    let K := from_rel_link_url (o_dest d) dir in
+    is_ref_url K = true ->
+    o_dest g = to_rel_link_url K dir /\
+    join_normalized dir (o_dest g) = K /\
+    (forall ext, ext = MD \/ ext = "" -> from_rel_link_url (ref_url (o_dest g) ext) dir = K) /\
+    (o_alt d = false ->
+     o_text g = match lt with
+                | Regular => match ctx K with Some t => [Str t] | None => kept_text dir (o_text d) end
+                | WikiLink => []
+                | WikiLinkPiped => kept_text dir (o_text d)
+                end).
+Proof. exact LinksFacts.C06_inline_rule. Qed.
+Check C06_inline_rule :
+  forall (ctx : titles) (dir : string) (d g : occ) (lt : link_type),
+    link_rule ctx dir d g -> o_kind d = KNote lt ->
+    let K := from_rel_link_url (o_dest d) dir in
+    is_ref_url K = true ->
+    o_dest g = to_rel_link_url K dir /\
+    join_normalized dir (o_dest g) = K /\
+    (forall ext, ext = MD \/ ext = "" -> from_rel_link_url (ref_url (o_dest g) ext) dir = K) /\
+    (o_alt d = false ->
+     o_text g = match lt with
+                | Regular => match ctx K with Some t => [Str t] | None => kept_text dir (o_text d) end
+                | WikiLink => []
+                | WikiLinkPiped => kept_text dir (o_text d)
+                end).
+Print Assumptions C06_inline_rule.
+
+(* the text of a regular inline link is the title of the note the WRITTEN link resolves to, in every directory
+   (formerly under the hypothesis key_from_file_name (o_dest d) = from_rel_link_url (o_dest d) dir) *)
+Theorem C06_inline_resolved :
+  forall (ctx : titles) (dir : string) (d g : occ),
+    link_rule ctx dir d g -> o_kind d = KNote Regular -> o_alt d = false ->
+    is_ref_url (from_rel_link_url (o_dest d) dir) = true ->
+    o_text g = match ctx (join_normalized dir (o_dest g)) with
+               | Some t => [Str t]
+               | None => kept_text dir (o_text d)
+               end.
+Proof. exact LinksFacts.C06_inline_resolved. Qed.
+Check C06_inline_resolved :
+  forall (ctx : titles) (dir : string) (d g : occ),
+    link_rule ctx dir d g -> o_kind d = KNote Regular -> o_alt d = false ->
+    is_ref_url (from_rel_link_url (o_dest d) dir) = true ->
+    o_text g = match ctx (join_normalized dir (o_dest g)) with
+               | Some t => [Str t]
+               | None => kept_text dir (o_text d)
+               end.
+Print Assumptions C06_inline_resolved.
+
+(* the witness of the finding is an instance of the rule now: in d/n the inline link `b.md` and the block
+   reference `b.md` both get the title of d/b; in the root both get the title of b *)
+Theorem C06_inline_dir_repaired :
+  glinks (written fd_ctx "d/n" fd_bs) =
+    [Occ (KNote Regular) false "b" [Str "SUB"]; Occ (KBlock Regular) false "b" [Str "SUB"]] /\
+  glinks (written fd_ctx "n" fd_bs) =
+    [Occ (KNote Regular) false "b" [Str "TOP"]; Occ (KBlock Regular) false "b" [Str "TOP"]].
+Proof. exact LinksFacts.C06_inline_dir_repaired. Qed.
+Check C06_inline_dir_repaired :
+  glinks (written fd_ctx "d/n" fd_bs) =
+    [Occ (KNote Regular) false "b" [Str "SUB"]; Occ (KBlock Regular) false "b" [Str "SUB"]] /\
+  glinks (written fd_ctx "n" fd_bs) =
+    [Occ (KNote Regular) false "b" [Str "TOP"]; Occ (KBlock Regular) false "b" [Str "TOP"]].
+Print Assumptions C06_inline_dir_repaired.
+
+(* the hypothesis is_ref_url K is needed, as it is for block references (C06_block_kind_refuted in LinksFacts.v):
+   `./mailto:x` is a note url, its key `mailto:x` reads as an external url *)
+Theorem C06_inline_kind_refuted :
+  exists ctx key bs lt, dlinks bs = [Occ (KNote lt) false "./mailto:x" [Str "m"]] /\
+    glinks (written ctx key bs) = [Occ (KExt lt) false "mailto:x" [Str "m"]].
+Proof. exact LinksFacts.C06_inline_kind_refuted. Qed.
+Check C06_inline_kind_refuted :
+  exists ctx key bs lt, dlinks bs = [Occ (KNote lt) false "./mailto:x" [Str "m"]] /\
+    glinks (written ctx key bs) = [Occ (KExt lt) false "mailto:x" [Str "m"]].
+Print Assumptions C06_inline_kind_refuted.
 
 (* what is written for a note link or a block reference resolves, from the note's directory, to the key the
    typed url resolved to - with either extension, for every key, also one ending in `.md` (the file `x.md.md`);
@@ -78,14 +145,22 @@ Print Assumptions C06_inline_dir_refuted.
 Theorem C06_written_resolves :
   forall (ctx : titles) (dir : string) (d g : occ) (ext : string),
     link_rule ctx dir d g ->
-    match o_kind d with KNote _ | KBlock _ => True | _ => False end ->
+    match o_kind d with
+    | KNote _ => is_ref_url (from_rel_link_url (o_dest d) dir) = true
+    | KBlock _ => True
+    | _ => False
+    end ->
     ext = MD \/ ext = "" ->
     from_rel_link_url (ref_url (o_dest g) ext) dir = from_rel_link_url (o_dest d) dir.
 Proof. exact LinksFacts.C06_written_resolves. Qed.
 Check C06_written_resolves :
   forall (ctx : titles) (dir : string) (d g : occ) (ext : string),
     link_rule ctx dir d g ->
-    match o_kind d with KNote _ | KBlock _ => True | _ => False end ->
+    match o_kind d with
+    | KNote _ => is_ref_url (from_rel_link_url (o_dest d) dir) = true
+    | KBlock _ => True
+    | _ => False
+    end ->
     ext = MD \/ ext = "" ->
     from_rel_link_url (ref_url (o_dest g) ext) dir = from_rel_link_url (o_dest d) dir.
 Print Assumptions C06_written_resolves.
